@@ -32,6 +32,7 @@ pub struct ExploreResult {
     pub transitions: u64,
     pub executions: u64,
     pub max_depth: usize,
+    pub depth_bound: usize,
     pub quiescent_states: u64,
     pub capped: bool,
     pub timed_out: bool,
@@ -227,6 +228,9 @@ pub fn explore(sc: &Scenario, opts: &ExploreOpts) -> ExploreResult {
             shared.lock().unwrap().result.timed_out = true;
             break;
         }
+        if sc.depth_bound > 0 && depth >= sc.depth_bound {
+            break;
+        }
         depth += 1;
         let frontier = Arc::new(Mutex::new(frontier));
         let n_threads = opts.threads.max(1);
@@ -283,6 +287,7 @@ pub fn explore(sc: &Scenario, opts: &ExploreOpts) -> ExploreResult {
     let mut sh = shared.lock().unwrap();
     let mut result = std::mem::take(&mut sh.result);
     result.scenario = sc.name.clone();
+    result.depth_bound = sc.depth_bound;
     result
 }
 
